@@ -292,6 +292,8 @@ def gen_record(r, ref):
         return {"op": "record", "view": gen_node_view(r, ref, prefer=("channel", own)), "state": st}
     if r.random() < 0.03:
         return {"op": "record", "view": [], "state": "no_such_state"}
+    if r.random() < 0.03:
+        return {"op": "record", "view": gen_node_view(r, ref), "state": "i"}  # the stimulus key is listed among the states but is none: must be refused
     return {"op": "record", "view": gen_node_view(r, ref), "state": "v"}
 
 
